@@ -1,0 +1,36 @@
+//go:build verif
+
+package floatingip
+
+import (
+	"net"
+	"sort"
+
+	"tkestack.io/galaxy/pkg/utils/nets"
+)
+
+// VerifNetsWalkIPRanges exports walkIPRanges (work package "nets", property C20).
+func VerifNetsWalkIPRanges(ranges []nets.IPRange, f func(ip net.IP) bool) {
+	walkIPRanges(ranges, f)
+}
+
+// VerifNetsState returns what a crd IPAM serves: the configured pools in their order, and the sorted
+// unallocated / allocated addresses.  ok is false if i is not the crd IPAM.
+func VerifNetsState(i IPAM) (pools []*FloatingIPPool, unallocated, allocated []string, ok bool) {
+	ci, ok := i.(*crdIpam)
+	if !ok {
+		return nil, nil, nil, false
+	}
+	ci.cacheLock.RLock()
+	defer ci.cacheLock.RUnlock()
+	pools = append(pools, ci.FloatingIPs...)
+	for ip := range ci.unallocatedFIPs {
+		unallocated = append(unallocated, ip)
+	}
+	for ip := range ci.allocatedFIPs {
+		allocated = append(allocated, ip)
+	}
+	sort.Strings(unallocated)
+	sort.Strings(allocated)
+	return pools, unallocated, allocated, true
+}
